@@ -25,18 +25,37 @@ def make_specs(ctx: Ctx, n):
         na = rng.choice([2, 4, 8])
         init = qinit(gen.rand_initial_states(rng, m, na, on_grid=True))
         seed = rng.randrange(10**6)
-        plan = [
-            {"op": "simulate", "target": "simulate", "init": init, "seed": seed, "vsrc": "given", "needV": True},
-            {"op": "simulate", "target": "solve_and_simulate", "init": init, "seed": seed, "vsrc": "own", "needV": True},
-            {"op": "rel-sim", "a": 1, "b": 2, "map": list(range(na)), "scope": "all", "what": "ss-equals-solve-then-simulate"},
-        ]
-        specs.append(mk_spec(i, m, ["c06"], plan, label=label))
+        # every second model is run twice on the SAME function objects with other parameter values written in place into
+        # the same params object (numpy leaves): the second run must agree with its own parameters
+        twice = i % 2 == 0
+        def plan_for(inplace):
+            return [
+                {"op": "simulate", "target": "simulate", "init": init, "seed": seed, "vsrc": "given", "needV": True, "inplace": inplace},
+                {"op": "simulate", "target": "solve_and_simulate", "init": init, "seed": seed, "vsrc": "own", "needV": True, "inplace": inplace},
+                {"op": "rel-sim", "a": 1, "b": 2, "map": list(range(na)), "scope": "all", "what": "ss-equals-solve-then-simulate"},
+            ]
+        if twice and len(specs) % 4 == 3:
+            twice = False       # keep both runs of a pair in one driver chunk (4 consecutive cases)
+        s1 = mk_spec(len(specs), m, ["c06"], plan_for(twice), label=label)
+        if twice:
+            s1["session_key"] = f"pair{i}"
+        specs.append(s1)
+        if twice:
+            import copy
+
+            from .c09 import param_variants
+
+            m2 = copy.deepcopy(m)
+            m2["params"] = param_variants(rng, m)["2"]
+            s2 = mk_spec(len(specs), m2, ["c06"], plan_for(True), label=label + "; same functions, parameters updated in place")
+            s2["session_key"] = f"pair{i}"
+            specs.append(s2)
     return specs
 
 
 def run(ctx: Ctx) -> Result:
     res = Result(ctx.prop)
-    specs = make_specs(ctx, ctx.n(60, 1200))
+    specs = make_specs(ctx, ctx.n(44, 900))
     run_pipeline(ctx, res, specs, nontrivial=lambda s: s["mdl"]["T"] >= 2)
     finalize_cov(res, "seeded random models (5 strata), on-grid initial states; each case simulates with the simulate "
                       "target (arrays from solve) and with solve_and_simulate (same seed); non-trivial = T >= 2")
